@@ -49,6 +49,26 @@ def parseOp (t : String) : Option SOp :=
   | ["bI", name] => (Builtin.ofName name).map SOp.builtin
   | _ => none
 
+/-- big-endian bytes -> value -/
+def beNat (d : Bytes) : Nat := d.foldl (fun a b => a * 256 + b.toNat) 0
+
+/-- one script token -> operations.  An ASCII-formatted integer array (`rA,<size>,2,<hex>,<kind>`) IS the sequence of scalar
+result calls the RESULT_ARRAY macro of parser.c makes (SCPI_ResultInt8/16/32/64 or SCPI_ResultUInt8/16/32/64 per element);
+binary arrays of signed / floating-point elements are byte strings like the unsigned ones. -/
+def parseOps (t : String) : Option (List SOp) :=
+  match t.splitOn "," with
+  | ["rA", sz, fmt, h, kind] => do
+    let szn ← sz.toNat?
+    if fmt == "2" then
+      if kind == "2" ∨ szn == 0 then none else
+      let d ← unhex (if h == "N" then "-" else h)
+      let signed := kind == "1"
+      let elems := (List.range (d.length / szn)).map (fun k => beNat ((d.drop (k * szn)).take szn))
+      some (elems.map (fun v =>
+        if szn == 8 then SOp.rInt 64 signed v 10 else if szn == 4 then SOp.rInt 32 signed v 10 else SOp.rIntN (8 * szn) signed v 10))
+    else (parseOp (",".intercalate ["rA", sz, fmt, h])).map (fun o => [o])
+  | _ => (parseOp t).map (fun o => [o])
+
 def parseTable (t : String) : Option (List Cmd) :=
   (t.splitOn ";").mapM (fun e =>
     match e.splitOn ":" with
@@ -56,7 +76,7 @@ def parseTable (t : String) : Option (List Cmd) :=
       let p ← unhex p; let tag ← parseInt tag
       -- "null": an entry without a handler (callback == NULL).  The model runs it as a handler that does nothing; the marker
       -- script `[.onFail false]` (a no-op) lets the driver leave out the handler-entered token, which nothing prints then
-      let ops ← if ops == "null" then some [SOp.onFail false] else (ops.splitOn "/").mapM parseOp
+      let ops ← if ops == "null" then some [SOp.onFail false] else ((ops.splitOn "/").mapM parseOps).map List.flatten
       some { pattern := p, tag := tag, script := ops }
     | _ => none)
 
